@@ -201,6 +201,7 @@ def analytic_case(qr, heom, numpy, ck):
         agg = Aggregate(ms)
     agg.build()
     out = {}
+    out3 = {}
     for depth in (ck.n((2, 5), (2, 4, 6, 8))):
         import io, contextlib
         with contextlib.redirect_stdout(io.StringIO()):
@@ -219,11 +220,32 @@ def analytic_case(qr, heom, numpy, ck):
         ref = 0.5 * numpy.exp(-1j * w * t - g)
         err = float(numpy.abs(rt.data[:, 1, 0] - ref).max())
         out[str(depth)] = err
+        # all three coherences of the uncoupled pair, the inter-site one included (it involves both baths at once):
+        # rho_12(t) = rho_12(0) exp(-i (w1 - w2) t - g1(t) - conj(g2(t)))
+        r3 = numpy.full((dim, dim), 1.0 / 3.0, dtype=complex) if dim == 3 else None
+        if r3 is not None:
+            with contextlib.redirect_stdout(io.StringIO()):
+                rt3 = prop.propagate(qr.ReducedDensityMatrix(data=r3.copy()))
+            gk = [(2.0 * hy.lam[k] * hy.kBT / hy.gamma[k] ** 2 - 1j * hy.lam[k] / hy.gamma[k]) * (numpy.exp(-hy.gamma[k] * t) + hy.gamma[k] * t - 1.0)
+                  for k in range(2)]
+            wk = [(HH[k + 1, k + 1] - prop.HOmega[k + 1, k + 1]) - (HH[0, 0] - prop.HOmega[0, 0]) for k in range(2)]
+            refs = {(1, 0): numpy.exp(-1j * wk[0] * t - gk[0]) / 3.0, (2, 0): numpy.exp(-1j * wk[1] * t - gk[1]) / 3.0,
+                    (1, 2): numpy.exp(-1j * (wk[0] - wk[1]) * t - gk[0] - numpy.conj(gk[1])) / 3.0}
+            for (a_, b_), rf in refs.items():
+                out3.setdefault("%d%d" % (a_, b_), {})[str(depth)] = float(numpy.abs(rt3.data[:, a_, b_] - rf).max())
+            pops = float(numpy.abs(numpy.real(numpy.array([numpy.diag(x) for x in rt3.data])) - 1.0 / 3.0).max())
+            if pops > 1e-9:
+                ck.fail("dyn:populations", "uncoupled sites: populations move under pure dephasing", {"depth": depth}, pops, 0)
         tr = float(numpy.abs(numpy.trace(rt.data, axis1=1, axis2=2) - 1.0).max())
         if tr > 1e-9:
             ck.fail("dyn:trace", "API-built hierarchy: trace not conserved", {"depth": depth}, tr, 0)
     ds = sorted(out, key=int)
     if out[ds[-1]] > 1e-3 or out[ds[-1]] > out[ds[0]] + 1e-12:
         ck.fail("dyn:analytic", "uncoupled sites: result does not converge with depth to exp(-i w t - g(t))", {"errors_by_depth": out})
+    for el, byd in out3.items():
+        ck.extra.setdefault("analytic_coherence_errors_by_depth", {})[el] = byd
+        if byd[ds[-1]] > 5e-3 or byd[ds[-1]] > 0.2 * byd[ds[0]] + 1e-12:
+            ck.fail("dyn:analytic:rho_%s" % el, "uncoupled sites: coherence rho_%s does not converge with depth to its pure-dephasing solution" % el,
+                    {"errors_by_depth": byd})
     ck.case(("analytic",), nontrivial=True, kind="analytic")
     return out
